@@ -408,9 +408,11 @@ HandleRemove(cs, fsys, req, aw, wantDir) ==
        ELSE LET n == Node(fsys, t)
                 isd == n.kind = "dir"
                 empty == Children(fsys, t) = {}
-            IN IF isd /\ ~empty THEN { Outcome(cs, fsys, Res4(-1), FALSE) }
+            IN \* exactly the named effect: DELETE_FILE removes what is not a directory (a link itself, not its target),
+               \* RMDIR removes an empty directory; anything else is refused
+               IF isd /\ ~empty THEN { Outcome(cs, fsys, Res4(-1), FALSE) }
                ELSE IF isd = wantDir THEN { RemoveNode(cs, fsys, t) }
-               ELSE { RemoveNode(cs, fsys, t), Outcome(cs, fsys, Res4(-1), FALSE) }
+               ELSE { Outcome(cs, fsys, Res4(-1), FALSE) }
 
 HandleMkdir(cs, fsys, req, aw) ==
   LET p == Norm(req.path) IN
